@@ -254,7 +254,7 @@ def openAt (fs : FS) (cwd : RPath) (dest rel : Str) : OpenRes :=
     | .error _ => ⟨made.fs, made.dirs, none⟩                      -- `File::create(&destination)?`
     | .ok (fs', f, fresh) => ⟨fs', made.dirs, some (destination, f, fresh)⟩
 
-/-- `ObjectWriterFS::open` BEFORE the repair of D9 (commit 1e99944 and earlier) -/
+/-- `ObjectWriterFS::open` BEFORE the repair of D9 (i.e. before /repo commit f1ea0e4) -/
 def openV0 (fs : FS) (cwd : RPath) (dest loc : Str) (ans : UrlAns) : OpenRes :=
   match contentLocationPath loc ans with
   | none => ⟨fs, [], none⟩
